@@ -153,14 +153,18 @@ def run_check(ctx):
         cases.append(case_for(cid, r, fb.decode("latin-1"), base_path))
         index[str(cid)] = r
         if r["nrec"] or r["kind"] != "ok" or r["cut"] != -1:
-            distinct.add((fb, r["kind"], r["pre"]))
+            distinct.add((Q.sha(fb), r["kind"], r["pre"]))
     phases["render"] = round(time.time() - t0, 1)
-    results = Q.run_driver(ctx, cases, timeout=10, tag="gen")
-    phases["replay"] = round(time.time() - t0, 1)
     n_eval = 0
-    for cid, r in index.items():
-        n_eval += 1
-        judge(ctx, table, r, results[cid], whole, base)
+    for lo in range(0, len(cases), 40000):          # in portions, so that the answers never pile up in memory
+        part = cases[lo:lo + 40000]
+        results = Q.run_driver(ctx, part, timeout=10, tag="gen")
+        for case in part:
+            cid = str(case["id"])
+            n_eval += 1
+            judge(ctx, table, index[cid], results[cid], whole, base)
+        del results
+    phases["replay"] = round(time.time() - t0, 1)
     ctx.cov["evaluations"] += n_eval
     ctx.cov["traces_validated_against_impl"] += n_eval
     ctx.cov["distinct_nontrivial"] = len(distinct)      # (histories are added by replay_histories)
